@@ -425,6 +425,17 @@ def m_vliteral_head():
                     arm_t("Done", [pv("o")], out(var("o")))])
 
 
+def m_vsuffix():
+    """a state visited repeatedly whose array pattern binds a variable AFTER the spread; the trailing element differs on
+    every visit (pattern variables must be rebound per visit, not compared with the previous visit's binding)"""
+    return machine([("xs", VEC), ("n", U64)], U64, [("S", [VEC, U64]), ("Done", [U64])], ("S", [var("xs"), var("n")]),
+                   [arm_g("S", [pa([pv("a")], ("sanon",), [pv("b")]), pv("k")],
+                          [(cmp_("gt", var("k"), lit(5)), nxt("Done", add(var("b"), mul(var("a"), lit(100))))),
+                           (WILD, nxt("S", arr(var("b"), var("a"), var("k")), add(var("k"), lit(1))))]),
+                    arm_t("S", [pv("rest"), pv("k")], out(var("k"))),
+                    arm_t("Done", [pv("o")], out(var("o")))])
+
+
 def m_nonterm(variant):
     if variant == 0:      # two-state ping-pong with a growing payload
         return machine([("n", U64)], U64, [("A", [U64]), ("B", [U64]), ("Done", [U64])], ("A", [var("n")]),
@@ -750,7 +761,8 @@ def generate(tier, rng):
       + [("fallthrough", m_fallthrough(), ["n", "n"]), ("input-capture", m_input_capture(), ["n", "n"]),
          ("leak0", m_leak(0), ["n", "n"]), ("leak1", m_leak(1), ["n", "n"]),
          ("vsum", m_vsum(), ["v"]), ("vreverse", m_vreverse(), ["v"]), ("vmax", m_vmax(), ["v"]), ("vends", m_vends(), ["v"]),
-         ("vbubble", m_vbubble(), ["v"]), ("vliteral", m_vliteral_head(), ["v", "n"])] \
+         ("vbubble", m_vbubble(), ["v"]), ("vliteral", m_vliteral_head(), ["v", "n"]),
+         ("vsuffix", m_vsuffix(), ["v", "n"])] \
       + [("nonterm%d" % v, m_nonterm(v), ["n"] if v < 3 else ["v"]) for v in range(4)]
 
     # 1. documented machines x all small inputs x several limits
